@@ -1,3 +1,4 @@
+import I18n.Generated.GettextPf
 import I18n.Model.CheckPlurals
 import I18n.Generated.PluralForms
 import I18n.Driver.Util
@@ -61,6 +62,22 @@ def handle (op : String) (args : List String) : String :=
     | .ok n _ lj rj => s!"ok {n} {Driver.hexChars lj} {Driver.hexChars rj}"
     | .syntaxError => "err syntax"
     | .valueError => "err ValueError"
+  | "parsepfs", [h] =>
+    match parsePluralFormsStrict (Driver.unhexChars h) with
+    | .ok n _ _ _ => s!"ok {n}"
+    | .syntaxError => "err syntax"
+    | .valueError => "err ValueError"
+  -- `gparsepf` / `gparsepfs`: the definitions REGENERATED from lib/gettext.py (Generated.GettextPf, tools/translate/gettextpf2lean.py)
+  | "gparsepf", [h] =>
+    match I18n.Generated.GettextPf.parse_plural_forms_lax (Driver.unhexChars h) with
+    | .ok (n, _, lj, rj) => s!"ok {n} {Driver.hexChars lj} {Driver.hexChars rj}"
+    | .error .syntax => "err syntax"
+    | .error .value => "err ValueError"
+  | "gparsepfs", [h] =>
+    match I18n.Generated.GettextPf.parse_plural_forms_strict (Driver.unhexChars h) with
+    | .ok (n, _) => s!"ok {n}"
+    | .error .syntax => "err syntax"
+    | .error .value => "err ValueError"
   | _, _ => "bad-op"
 
 end I18n.Driver.CheckPlurals
